@@ -1,17 +1,57 @@
 /-
-  Kevo.Model.Merge — cursor-level model of pkg/common/iterator/composite.HierarchicalIterator over abstract
-  sorted sources, of bounded.BoundedIterator, and the functional specification of a merged scan.
-  A source is a list of (key, value-or-tombstone) with non-decreasing keys (a memtable source may hold several
-  versions of a key, newest first); earlier sources are newer.
+  Kevo.Model.Merge — cursor-level model of the scan path (C05).
+
+  An iterator of pkg/common/iterator is modelled as a state `σ` plus a table of operations `Ops σ`
+  (SeekToFirst / SeekToLast / Seek / Next / Valid / Key / Value / IsTombstone, with the boolean results of
+  Seek and Next). The wrappers of the code base are functions on such tables:
+
+    srcOps       leaf cursors: memtable.IteratorAdapter, sstable.IteratorAdapter, transaction.BufferIterator
+    hierOps      composite.HierarchicalIterator            (findNextUniqueKey / Seek / SeekToLast / Next)
+    boundedOps   bounded.BoundedIterator                   (checkBounds, SeekToLast exactly as coded)
+    filteredOps  filtered.FilteredIterator                 (prefix / suffix; nesting = composing twice)
+    sumOps       a list of children of two different shapes (transaction buffer + storage iterator)
+    consume      the consumer loop of the gRPC service (Scan / TxScan): tombstones skipped, limit counts live entries
+    serviceScan  the iterator the service builds for each option combination + the consumer loop
+
+  Loops of the Go code take a fuel argument (`fuel` > number of entries below the iterator is always enough:
+  Kevo.Proofs.Merge). A source is a list of (key, value-or-deletion-marker); a memtable source may hold several
+  versions of a key, newest first; earlier sources are newer.
+
+  The second half is the functional specification (`mergeSpec`, `scanSpec`).
 -/
 import Kevo.Base.Bytes
 namespace Kevo.Merge
 
 abbrev KV := Bytes × Option Bytes
 
+/-- the operations of `iterator.Iterator` on a cursor state σ. `key`/`val` are what Key()/Value() return
+    (`none` = nil). -/
+structure Ops (σ : Type) where
+  first : σ → σ
+  last : σ → σ
+  seek : σ → Bytes → σ × Bool
+  next : σ → σ × Bool
+  valid : σ → Bool
+  key : σ → Option Bytes
+  val : σ → Option Bytes
+  tomb : σ → Bool
+
+/-- the key as the comparisons see it (bytes.Compare treats nil as empty) -/
+def Ops.k {σ : Type} (O : Ops σ) (c : σ) : Bytes := (O.key c).getD []
+
+/-! ### leaf cursors -/
+
+/-- `mem`: memtable / sstable adapter (SeekToLast = first version of the greatest key);
+    `slice`: positional cursor over an arbitrary list (test double for adversarial sources);
+    `buf`: transaction.BufferIterator (Next on an unpositioned iterator restarts at the first key). -/
+inductive SrcKind where
+  | mem | slice | buf
+  deriving Repr, DecidableEq
+
 structure Src where
   es : List KV
   pos : Option Nat := none
+  kind : SrcKind := .mem
   deriving Repr
 
 def Src.cur (s : Src) : Option KV := s.pos.bind (fun i => s.es[i]?)
@@ -21,64 +61,324 @@ def Src.seek (s : Src) (t : Bytes) : Src := { s with pos := s.es.findIdx? (fun e
 def Src.next (s : Src) : Src :=
   match s.pos with
   | some i => { s with pos := if i + 1 < s.es.length then some (i + 1) else none }
-  | none => s
-/-- SeekToLast of the adapters: the first (newest) version of the greatest key. -/
+  | none => if s.kind == .buf then s.first else s
+/-- SeekToLast of the memtable adapter: forward scan to the last key, then Seek(lastKey) = the first (newest)
+    version of the greatest key. The other kinds go to the last position. -/
 def Src.last (s : Src) : Src :=
-  match s.es.getLast? with
-  | some l => s.seek l.1
-  | none => { s with pos := none }
+  match s.kind with
+  | .mem => match s.es.getLast? with
+    | some l => s.seek l.1
+    | none => { s with pos := none }
+  | _ => { s with pos := if s.es.isEmpty then none else some (s.es.length - 1) }
 
-/-- advance while valid and key ≤ prev (the inner loop of findNextUniqueKey). -/
-def Src.skipTo (s : Src) (prev : Bytes) : Nat → Src
-  | 0 => s
-  | fuel + 1 => match s.cur with
-    | some e => if !ltB prev e.1 then (s.next).skipTo prev fuel else s
-    | none => s
+def srcOps : Ops Src where
+  first := Src.first
+  last := Src.last
+  seek := fun s t => let s' := s.seek t; (s', s'.valid)
+  next := fun s => let s' := s.next; (s', s'.valid)
+  valid := Src.valid
+  key := fun s => s.cur.map (·.1)
+  val := fun s => s.cur.bind (·.2)
+  tomb := fun s => match s.cur with
+    | some e => e.2.isNone
+    | none => false
 
-structure Hier where
-  srcs : List Src
+/-- children of two different shapes in one list -/
+def sumOps {α β : Type} (A : Ops α) (B : Ops β) : Ops (α ⊕ β) where
+  first := fun c => match c with
+    | .inl a => .inl (A.first a)
+    | .inr b => .inr (B.first b)
+  last := fun c => match c with
+    | .inl a => .inl (A.last a)
+    | .inr b => .inr (B.last b)
+  seek := fun c t => match c with
+    | .inl a => let r := A.seek a t; (.inl r.1, r.2)
+    | .inr b => let r := B.seek b t; (.inr r.1, r.2)
+  next := fun c => match c with
+    | .inl a => let r := A.next a; (.inl r.1, r.2)
+    | .inr b => let r := B.next b; (.inr r.1, r.2)
+  valid := fun c => match c with
+    | .inl a => A.valid a
+    | .inr b => B.valid b
+  key := fun c => match c with
+    | .inl a => A.key a
+    | .inr b => B.key b
+  val := fun c => match c with
+    | .inl a => A.val a
+    | .inr b => B.val b
+  tomb := fun c => match c with
+    | .inl a => A.tomb a
+    | .inr b => B.tomb b
+
+/-! ### composite.HierarchicalIterator -/
+
+structure HierG (σ : Type) where
+  srcs : List σ
   key : Bytes := []
   val : Option Bytes := none
   valid : Bool := false
-  deriving Repr
 
-/-- smallest current key over the sources; the first source wins ties (strict comparison). -/
-def pickMin (srcs : List Src) : Option KV :=
-  srcs.foldl (fun best s => match s.cur, best with
-    | some e, none => some e
-    | some e, some b => if ltB e.1 b.1 then some e else some b
-    | none, b => b) none
+/-- the first candidate with the smallest key (the loops replace the best candidate only on a strictly smaller
+    key, so the earliest = newest source wins ties; the "check newer iterators for the same key" pass that follows
+    in the code can therefore never find one). -/
+def pickMin : List KV → Option KV
+  | [] => none
+  | e :: rest => match pickMin rest with
+    | none => some e
+    | some b => if ltB b.1 e.1 then some b else some e
 
-def Hier.settle (h : Hier) : Hier :=
-  match pickMin h.srcs with
+/-- the first candidate with the greatest key (SeekToLast) -/
+def pickMax : List KV → Option KV
+  | [] => none
+  | e :: rest => match pickMax rest with
+    | none => some e
+    | some b => if ltB e.1 b.1 then some b else some e
+
+/-- (Key(), Value()) of the children that are Valid() and pass `ok` -/
+def cands {σ : Type} (O : Ops σ) (ok : σ → Bool) (cs : List σ) : List KV :=
+  cs.filterMap (fun c => if O.valid c && ok c then some (O.k c, O.val c) else none)
+
+def HierG.settle {σ : Type} (O : Ops σ) (ok : σ → Bool) (h : HierG σ) : HierG σ :=
+  match pickMin (cands O ok h.srcs) with
   | some e => { h with key := e.1, val := e.2, valid := true }
   | none => { h with valid := false }
 
+/-- the inner loop of findNextUniqueKey: `for iter.Valid() && Compare(iter.Key(), prev) <= 0 { if !iter.Next() { break } }` -/
+def skipLoop {σ : Type} (O : Ops σ) (prev : Bytes) : Nat → σ → σ
+  | 0, c => c
+  | fuel + 1, c =>
+    if O.valid c && !ltB prev (O.k c) then
+      let r := O.next c
+      if r.2 then skipLoop O prev fuel r.1 else r.1
+    else c
+
 /-- findNextUniqueKey(prevKey) -/
-def Hier.findNext (h : Hier) (prev : Option Bytes) : Hier :=
+def HierG.findNext {σ : Type} (O : Ops σ) (fuel : Nat) (h : HierG σ) (prev : Option Bytes) : HierG σ :=
   let srcs := match prev with
-    | some p => h.srcs.map (fun s => s.skipTo p (s.es.length + 1))
+    | some p => h.srcs.map (skipLoop O p fuel)
     | none => h.srcs
-  ({ h with srcs }).settle
+  HierG.settle O (fun _ => true) { h with srcs }
 
-def Hier.first (h : Hier) : Hier := ({ h with srcs := h.srcs.map Src.first }).findNext none
-def Hier.seek (h : Hier) (t : Bytes) : Hier := ({ h with srcs := h.srcs.map (fun s => Src.seek s t) }).settle
-def Hier.next (h : Hier) : Hier := if h.valid then h.findNext (some h.key) else h
+def hierOps {σ : Type} (O : Ops σ) (fuel : Nat) : Ops (HierG σ) where
+  first := fun h => HierG.findNext O fuel { h with srcs := h.srcs.map O.first } none
+  last := fun h =>
+    let srcs := h.srcs.map O.last
+    match pickMax (cands O (fun _ => true) srcs) with
+    | some e => { h with srcs, key := e.1, val := e.2, valid := true }
+    | none => { h with srcs, valid := false }
+  seek := fun h t =>
+    -- every child seeks; children left on a key < target (a bounded child whose Seek refused to move) are skipped
+    let h' := HierG.settle O (fun c => !ltB (O.k c) t) { h with srcs := h.srcs.map (fun c => (O.seek c t).1) }
+    (h', h'.valid)
+  next := fun h =>
+    if h.valid then
+      let h' := HierG.findNext O fuel h (some h.key)
+      (h', h'.valid)
+    else (h, false)
+  valid := fun h => h.valid
+  key := fun h => if h.valid then some h.key else none
+  val := fun h => if h.valid then h.val else none
+  tomb := fun h => h.valid && h.val.isNone
 
-/-- SeekToLast: greatest key over the sources, first source wins ties. -/
-def Hier.last (h : Hier) : Hier :=
-  let srcs := h.srcs.map Src.last
-  let best := srcs.foldl (fun best s => match s.cur, best with
-    | some e, none => some e
-    | some e, some b => if ltB b.1 e.1 then some e else some b
-    | none, b => b) none
-  match best with
-  | some e => { h with srcs, key := e.1, val := e.2, valid := true }
-  | none => { h with srcs, valid := false }
+/-! ### bounded.BoundedIterator (stateless apart from the wrapped iterator) -/
 
-def Hier.collect : Nat → Hier → List KV
+def inRange (lo hi : Option Bytes) (k : Bytes) : Bool :=
+  (match lo with
+    | some l => !ltB k l
+    | none => true) &&
+  (match hi with
+    | some h => ltB k h
+    | none => true)
+
+/-- checkBounds -/
+def bcheck {σ : Type} (O : Ops σ) (lo hi : Option Bytes) (c : σ) : Bool := O.valid c && inRange lo hi (O.k c)
+
+/-- the scan of SeekToLast: `for Valid() && Compare(Key(), end) < 0 { lastKey = Key(); Next() }` -/
+def walkBelow {σ : Type} (O : Ops σ) (hi : Bytes) : Nat → σ → Option Bytes → σ × Option Bytes
+  | 0, c, lk => (c, lk)
+  | fuel + 1, c, lk =>
+    if O.valid c && ltB (O.k c) hi then walkBelow O hi fuel (O.next c).1 (some (O.k c)) else (c, lk)
+
+def boundedOps {σ : Type} (O : Ops σ) (lo hi : Option Bytes) (fuel : Nat) : Ops σ where
+  first := fun c => match lo with
+    | some l => (O.seek c l).1
+    | none => O.first c
+  last := fun c => match hi with
+    | some e =>
+      let c1 := (O.seek c e).1
+      if O.valid c1 && O.k c1 == e then
+        let r := walkBelow O e fuel (O.first c1) none
+        match r.2 with
+        | some lk => (O.seek r.1 lk).1
+        | none => O.first r.1
+      else c1
+    | none => O.last c
+  seek := fun c t =>
+    let t := match lo with
+      | some l => if ltB t l then l else t
+      | none => t
+    let refuse := match hi with
+      | some e => !ltB t e
+      | none => false
+    if refuse then (c, false)
+    else
+      let r := O.seek c t
+      if r.2 then (r.1, bcheck O lo hi r.1) else (r.1, false)
+  next := fun c =>
+    if !bcheck O lo hi c then (c, false)
+    else
+      let r := O.next c
+      if !r.2 then (r.1, false) else (r.1, bcheck O lo hi r.1)
+  valid := fun c => O.valid c && bcheck O lo hi c
+  key := fun c => if O.valid c && bcheck O lo hi c then O.key c else none
+  val := fun c => if O.valid c && bcheck O lo hi c then O.val c else none
+  tomb := fun c => if O.valid c && bcheck O lo hi c then O.tomb c else false
+
+/-! ### filtered.FilteredIterator -/
+
+/-- Next: `for fi.iter.Next() { if fi.keyFilter(fi.iter.Key()) { return true } }; return false` -/
+def filtNext {σ : Type} (O : Ops σ) (f : Bytes → Bool) : Nat → σ → σ × Bool
+  | 0, c => (c, false)
+  | fuel + 1, c =>
+    let r := O.next c
+    if !r.2 then (r.1, false)
+    else if f (O.k r.1) then (r.1, true)
+    else filtNext O f fuel r.1
+
+/-- the scan of SeekToLast: `for Valid() { if filter(Key()) { lastValidKey = Key() }; Next() }` -/
+def walkAll {σ : Type} (O : Ops σ) (f : Bytes → Bool) : Nat → σ → Option Bytes → σ × Option Bytes
+  | 0, c, lk => (c, lk)
+  | fuel + 1, c, lk =>
+    if O.valid c then walkAll O f fuel (O.next c).1 (if f (O.k c) then some (O.k c) else lk) else (c, lk)
+
+def filteredOps {σ : Type} (O : Ops σ) (f : Bytes → Bool) (fuel : Nat) : Ops σ where
+  first := fun c =>
+    let c1 := O.first c
+    if O.valid c1 && !f (O.k c1) then (filtNext O f fuel c1).1 else c1
+  last := fun c =>
+    let c1 := O.last c
+    if O.valid c1 && !f (O.k c1) then
+      let r := walkAll O f fuel (O.first c1) none
+      match r.2 with
+      | some lk => (O.seek r.1 lk).1
+      | none => O.first r.1
+    else c1
+  seek := fun c t =>
+    let r := O.seek c t
+    if !r.2 then (r.1, false)
+    else if !f (O.k r.1) then filtNext O f fuel r.1
+    else (r.1, true)
+  next := fun c => filtNext O f fuel c
+  valid := fun c => O.valid c && f (O.k c)
+  key := O.key
+  val := O.val
+  tomb := O.tomb
+
+def prefixOps {σ : Type} (O : Ops σ) (p : Bytes) (fuel : Nat) : Ops σ := filteredOps O (fun k => hasPrefix k p) fuel
+def suffixOps {σ : Type} (O : Ops σ) (s : Bytes) (fuel : Nat) : Ops σ := filteredOps O (fun k => hasSuffix k s) fuel
+
+/-! ### consumers -/
+
+/-- `for it.SeekToFirst(); it.Valid(); it.Next()` collecting (Key, Value), deletion markers included;
+    the caller positions the cursor. -/
+def collect {σ : Type} (O : Ops σ) : Nat → σ → List KV
   | 0, _ => []
-  | fuel + 1, h => if h.valid then (h.key, h.val) :: Hier.collect fuel h.next else []
+  | fuel + 1, c => if O.valid c then (O.k c, O.val c) :: collect O fuel (O.next c).1 else []
+
+/-- the consumer loop of KevoServiceServer.Scan / TxScan after SeekToFirst: limit 0 = unlimited; deletion
+    markers are skipped and do not count. Emits (Key(), Value()). -/
+def consume {σ : Type} (O : Ops σ) (limit : Nat) : Nat → Nat → σ → List KV
+  | 0, _, _ => []
+  | fuel + 1, count, c =>
+    if O.valid c then
+      if limit > 0 && count ≥ limit then []
+      else if !O.tomb c then (O.k c, O.val c) :: consume O limit fuel (count + 1) (O.next c).1
+      else consume O limit fuel count (O.next c).1
+    else []
+
+/-! ### the iterators of the storage engine, of a transaction and of the service -/
+
+abbrev Hier := HierG Src
+
+def mkHier (srcs : List (List KV)) : Hier := { srcs := srcs.map (fun es => { es := es }) }
+
+def totalLen (srcs : List (List KV)) : Nat := (srcs.map List.length).sum
+
+/-- iterator.Factory.CreateIterator over the given sources (newest first) -/
+def storageOps (fuel : Nat) : Ops Hier := hierOps srcOps fuel
+
+/-- the children of the transaction's merged iterator: the buffer iterator and the storage iterator -/
+abbrev TxChild := Src ⊕ Hier
+abbrev TxIter := HierG TxChild
+
+def bufSrc (buf : List KV) : Src := { es := buf, kind := .buf }
+
+/-- TransactionImpl.NewIterator with a non-empty buffer: Hierarchical[buffer, storage] -/
+def txOps (fuel : Nat) : Ops TxIter := hierOps (sumOps srcOps (storageOps fuel)) fuel
+/-- TransactionImpl.NewRangeIterator with a non-empty buffer: Hierarchical[Bounded(buffer), Bounded(storage)] -/
+def txRangeOps (lo hi : Option Bytes) (fuel : Nat) : Ops TxIter :=
+  hierOps (sumOps (boundedOps srcOps lo hi fuel) (boundedOps (storageOps fuel) lo hi fuel)) fuel
+
+def mkTx (buf : List KV) (srcs : List (List KV)) : TxIter := { srcs := [.inl (bufSrc buf), .inr (mkHier srcs)] }
+
+/-- request options of Scan / TxScan (empty = not given) -/
+structure ScanOpts where
+  pre : Bytes := []
+  suf : Bytes := []
+  start : Bytes := []
+  stop : Bytes := []
+  limit : Nat := 0
+  deriving Repr
+
+def optB (b : Bytes) : Option Bytes := if b.isEmpty then none else some b
+
+/-- which wrappers the service puts around `tx.NewIterator()` / when it asks for `tx.NewRangeIterator` instead:
+    prefix+suffix → Suffix(Prefix(base)); prefix; suffix; start/end → range iterator; else the base iterator.
+    (With a prefix or suffix the start/end options are not looked at.) -/
+def serviceWrap {σ : Type} (o : ScanOpts) (base : Ops σ) (range : Ops σ) (fuel : Nat) : Ops σ :=
+  if !o.pre.isEmpty && !o.suf.isEmpty then suffixOps (prefixOps base o.pre fuel) o.suf fuel
+  else if !o.pre.isEmpty then prefixOps base o.pre fuel
+  else if !o.suf.isEmpty then suffixOps base o.suf fuel
+  else if !o.start.isEmpty || !o.stop.isEmpty then range
+  else base
+
+def runScan {σ : Type} (O : Ops σ) (limit fuel : Nat) (c : σ) : List KV := consume O limit fuel 0 (O.first c)
+
+/-- KevoServiceServer.Scan (read-only transaction: empty buffer, the storage iterator is used directly) -/
+def serviceScan (o : ScanOpts) (srcs : List (List KV)) : List KV :=
+  let fuel := totalLen srcs + 2
+  runScan (serviceWrap o (storageOps fuel) (boundedOps (storageOps fuel) (optB o.start) (optB o.stop) fuel) fuel)
+    o.limit fuel (mkHier srcs)
+
+/-- KevoServiceServer.TxScan inside a transaction whose buffer iterates as `buf` (sorted by key, one operation per
+    key, `none` = buffered delete). An empty buffer makes the transaction hand out the storage iterator itself. -/
+def serviceTxScan (o : ScanOpts) (buf : List KV) (srcs : List (List KV)) : List KV :=
+  if buf.isEmpty then serviceScan o srcs
+  else
+    let fuel := totalLen srcs + buf.length + 2
+    runScan (serviceWrap o (txOps fuel) (txRangeOps (optB o.start) (optB o.stop) fuel) fuel) o.limit fuel (mkTx buf srcs)
+
+/-! ### names used by the engine driver (scan lo hi of the engine model) -/
+
+def Hier.fuel (h : Hier) : Nat := (h.srcs.map (fun s => s.es.length)).sum + 2
+def Hier.first (h : Hier) : Hier := (storageOps h.fuel).first h
+def Hier.last (h : Hier) : Hier := (storageOps h.fuel).last h
+def Hier.seek (h : Hier) (t : Bytes) : Hier := ((storageOps h.fuel).seek h t).1
+def Hier.next (h : Hier) : Hier := ((storageOps h.fuel).next h).1
+def Hier.collect (n : Nat) (h : Hier) : List KV := Kevo.Merge.collect (storageOps h.fuel) n h
+
+structure Bounded where
+  h : Hier
+  lo : Option Bytes
+  hi : Option Bytes
+
+def Bounded.ops (b : Bounded) : Ops Hier := boundedOps (storageOps b.h.fuel) b.lo b.hi b.h.fuel
+def Bounded.valid (b : Bounded) : Bool := b.ops.valid b.h
+def Bounded.first (b : Bounded) : Bounded := { b with h := b.ops.first b.h }
+def Bounded.last (b : Bounded) : Bounded := { b with h := b.ops.last b.h }
+def Bounded.next (b : Bounded) : Bounded := { b with h := (b.ops.next b.h).1 }
+def Bounded.seek (b : Bounded) (t : Bytes) : Bounded × Bool := let r := b.ops.seek b.h t; ({ b with h := r.1 }, r.2)
+def Bounded.collect (n : Nat) (b : Bounded) : List KV := Kevo.Merge.collect b.ops n b.h
 
 /-! ### functional specification -/
 
@@ -88,39 +388,33 @@ def insertKey (k : Bytes) : List Bytes → List Bytes
 
 def allKeys (srcs : List (List KV)) : List Bytes := srcs.flatten.foldl (fun acc e => insertKey e.1 acc) []
 
+/-- the newest entry of key `k`: the first entry of that key in the first source that contains it -/
+def newest (srcs : List (List KV)) (k : Bytes) : Option KV := srcs.findSome? (fun s => s.find? (fun e => e.1 == k))
+
 /-- newest-wins merged view: every key once, ascending, with the value of the first entry of that key in the
     first source that contains it. -/
-def mergeSpec (srcs : List (List KV)) : List KV :=
-  (allKeys srcs).filterMap (fun k => (srcs.findSome? (fun s => s.find? (fun e => e.1 == k))))
+def mergeSpec (srcs : List (List KV)) : List KV := (allKeys srcs).filterMap (newest srcs)
 
-def inRange (lo hi : Option Bytes) (k : Bytes) : Bool :=
-  (match lo with | some l => !ltB k l | none => true) && (match hi with | some h => ltB k h | none => true)
+/-- deletion markers dropped -/
+def live (l : List KV) : List KV := l.filter (fun e => e.2.isSome)
 
 /-- a scan as a client performs it: merged view restricted to [lo, hi), deletion markers skipped. -/
 def scanSpec (srcs : List (List KV)) (lo hi : Option Bytes) : List (Bytes × Bytes) :=
   (mergeSpec srcs).filterMap (fun (k, v) => if inRange lo hi k then v.map (fun x => (k, x)) else none)
 
-/-! ### BoundedIterator over a Hier -/
+/-- one buffered operation (isDelete, key, value) as an entry: a buffered delete is a deletion marker -/
+def opKV (o : Bool × Bytes × Bytes) : KV := (o.2.1, if o.1 then none else some o.2.2)
 
-structure Bounded where
-  h : Hier
-  lo : Option Bytes
-  hi : Option Bytes
-  deriving Repr
+/-- transaction.Buffer seen through Buffer.NewIterator: one entry per key — the LAST operation on it — in key order -/
+def bufferKV (ops : List (Bool × Bytes × Bytes)) : List KV := mergeSpec [(ops.map opKV).reverse]
 
-def Bounded.check (b : Bounded) : Bool := b.h.valid && inRange b.lo b.hi b.h.key
-def Bounded.valid (b : Bounded) : Bool := b.check
-def Bounded.first (b : Bounded) : Bounded :=
-  { b with h := match b.lo with | some l => b.h.seek l | none => b.h.first }
-def Bounded.next (b : Bounded) : Bounded := if b.check then { b with h := b.h.next } else b
-def Bounded.seek (b : Bounded) (t : Bytes) : Bounded × Bool :=
-  let t := match b.lo with | some l => if ltB t l then l else t | none => t
-  match b.hi with
-  | some hi => if !ltB t hi then (b, false) else let b' := { b with h := b.h.seek t }; (b', b'.h.valid && b'.check)
-  | none => let b' := { b with h := b.h.seek t }; (b', b'.h.valid && b'.check)
-
-def Bounded.collect : Nat → Bounded → List KV
-  | 0, _ => []
-  | fuel + 1, b => if b.valid then (b.h.key, b.h.val) :: Bounded.collect fuel b.next else []
+/-- what a service scan must return for its option combination: the live merged entries that pass the filters
+    (or lie in the range), cut at the limit. -/
+def serviceSpec (o : ScanOpts) (srcs : List (List KV)) : List KV :=
+  let sel : Bytes → Bool :=
+    if !o.pre.isEmpty || !o.suf.isEmpty then fun k => hasPrefix k o.pre && hasSuffix k o.suf
+    else inRange (optB o.start) (optB o.stop)
+  let l := live ((mergeSpec srcs).filter (fun e => sel e.1))
+  if o.limit > 0 then l.take o.limit else l
 
 end Kevo.Merge
